@@ -2,6 +2,9 @@ package c14
 
 import (
 	"fmt"
+	"time"
+
+	"github.com/kardiachain/go-kardia/kai/kaidb"
 
 	"github.com/kardiachain/go-kardia/kai/kaidb/memorydb"
 	"github.com/kardiachain/go-kardia/kai/state/cstate"
@@ -114,4 +117,117 @@ func atomicCase(c *core.Case) {
 		}
 	}
 	account(run, c, w, sc, "atomic")
+}
+
+// Group stop: BlockExecutor.Stop() is what the node calls right before it closes its databases; it must not return
+// while a block is half applied. A database wrapper calls Stop from another goroutine at a chosen write of
+// ApplyBlock and gives it 30 ms: if Stop has returned by then (it may only do so when nothing is pending), the
+// database as it is at that moment - what a closing node would leave on disk - must load as the state before the
+// block or as the state after it. (If Stop is still waiting, as it should, nothing is judged; the wait is a
+// stimulus, a slow machine can only make the group miss something, never raise an alarm.)
+
+type hookDB struct {
+	kaidb.Database
+	on func()
+}
+
+func (d *hookDB) Put(k, v []byte) error { d.on(); return d.Database.Put(k, v) }
+func (d *hookDB) Delete(k []byte) error { d.on(); return d.Database.Delete(k) }
+func (d *hookDB) NewBatch() kaidb.Batch { return &hookBatch{Batch: d.Database.NewBatch(), d: d} }
+
+type hookBatch struct {
+	kaidb.Batch
+	d *hookDB
+}
+
+func (b *hookBatch) Write() error { b.d.on(); return b.Batch.Write() }
+
+func stopCase(c *core.Case) {
+	r, run := c.R, c.Run
+	class := classes[c.I%len(classes)]
+	L := 2 + r.Intn(4)
+	sc := genScript(r, class, L+1)
+	o := &obs{c: c, sc: sc}
+	mem := memorydb.New()
+	writes, target := 0, -1
+	var stopped chan struct{}
+	var image *memorydb.Database
+	armed := false
+	db := &hookDB{Database: mem}
+	var w *world
+	db.on = func() {
+		if !armed {
+			return
+		}
+		writes++
+		if writes != target || stopped != nil {
+			return
+		}
+		stopped = make(chan struct{})
+		go func() { w.exec.Stop(); close(stopped) }()
+		select {
+		case <-stopped:
+			image = cloneDB(mem) // what is on disk when Stop says nothing is pending
+		case <-time.After(30 * time.Millisecond):
+		}
+	}
+	var err error
+	w, err = newWorldWith(sc, r, db, nil)
+	if err != nil {
+		run.Inconclusive(fmt.Sprintf("case %s:%d: cannot create the genesis state: %v", c.Group, c.I, err))
+		return
+	}
+	defer w.close()
+	if !runChain(o, w, L, false) {
+		return
+	}
+	before := w.saved[w.state.LastBlockHeight]
+	// one more block, with Stop arriving at its target-th database write
+	armed, target = true, 1+c.I/len(classes)%6
+	gerr, ok := o.growGuarded(w, w.grow)
+	armed = false
+	if stopped != nil {
+		select {
+		case <-stopped:
+		case <-time.After(30 * time.Second):
+			run.Inconclusive("BlockExecutor.Stop did not return 30 s after the block was applied")
+			return
+		}
+	}
+	run.Eval(1)
+	run.Count("stops_during_a_block", 1)
+	if !ok {
+		return
+	}
+	if stopped == nil {
+		run.Count("stop_target_write_not_reached", 1)
+		return
+	}
+	if image == nil {
+		run.Count("stop_waited_for_the_block", 1)
+		run.Nontrivial(fmt.Sprint("stop", c.I, target))
+		return
+	}
+	run.Count("stop_returned_while_a_block_was_being_applied", 1)
+	out := func() (res loadOutcome) {
+		defer func() {
+			if p := recover(); p != nil {
+				res = loadOutcome{kind: "panic", what: firstLines(fmt.Sprint(p), 2)}
+			}
+		}()
+		st := cstate.NewStore(image).Load()
+		if st.IsEmpty() {
+			return loadOutcome{kind: "empty"}
+		}
+		return loadOutcome{kind: "state", snap: snapState(&st)}
+	}()
+	after := before
+	if gerr == nil {
+		after = w.saved[w.state.LastBlockHeight]
+	}
+	if out.kind == "state" && (len(cmpState(before, out.snap)) == 0 || len(cmpState(after, out.snap)) == 0) {
+		return
+	}
+	o.violation("stop-returns-while-a-block-is-half-applied:"+out.kind, fmt.Sprintf("BlockExecutor.Stop() returned at database write %d of ApplyBlock(height %d); the database at that moment loads as %s %s - neither the state before the block nor the state after it",
+		target, before.Height+1, out.kind, out.what), nil)
 }
